@@ -12,7 +12,7 @@ from z3 import And, Or, Not, Implies, If, IntVal, RealVal, BoolVal
 from ..pyvc import sorts as so
 from ..pyvc.sorts import fresh, I, R, B, cnt
 from ..pyvc.values import SList, SDict, SObj, NONE, PyConst, FuncRef, Callback, TupleSpec, Unsupported, coerce, SHeap
-from ..pyvc.engine import Unbindable
+from ..pyvc.engine import Unbindable, _EmptyList, _PyList
 from ..pyvc.verify import Contract, Case, LoopSpec
 from . import types as T
 
@@ -124,6 +124,8 @@ def encode_event(run, fn, args, lineno, check_binding=True):
     else:
         run.oblige('site', 'event-source-is-node:%s' % fn.qualname, lineno, BoolVal(False))
         has, srcv = BoolVal(False), fresh('nosrc', U)
+    if 'future_transmissions' in bound:
+        run.ghost['_future'] = bound['future_transmissions']      # ghost payload of the event (list of later attempt times)
     return (IntVal(KINDS[fn.qualname]), has, srcv, tgt)
 
 
@@ -230,7 +232,9 @@ def contracts():
         if isinstance(fn, PyConst) and fn.v == 'opaque-fn':
             bound['_payload'] = run.ghost['_payload']
             return
+        run.ghost.pop('_future', None)
         bound['_payload'] = encode_event(run, fn, args, getattr(run, 'cur_line', 0))
+        bound['_future'] = run.ghost.pop('_future', None)
 
     def add_post(old, s, ret):
         q0, q1 = old.self, s.self
@@ -238,10 +242,25 @@ def contracts():
         pl = s._payload if s.has('_payload') else s.ghost['_payload']
         t = so.to_xr(old.time)
         ev = D.mk(so.xr_val(t), q0.counter, pl[0], pl[1], pl[2], pl[3])
+        put, keep = [], []
+        if 'fut_n' in q0.f:
+            # ghost payload map of the queue (event counter -> list of later attempt times of a non-Markovian SIS transmission event)
+            fl = s._future if s.has('_future') else None
+            keep = [q1.fut_n == q0.fut_n, q1.fut_a == q0.fut_a]
+            if isinstance(fl, SList):
+                # (pointwise, so that a list given by a lambda term - a slice - is never stored as an array value)
+                cc = fresh('c', I)
+                put = [q1.fut_n == z3.Store(q0.fut_n, q0.counter, fl.n),
+                       so.forall_idx(fl.n, lambda i: q1.fut_a[q0.counter][i] == fl.a[i]),
+                       z3.ForAll([cc], Implies(cc != q0.counter, q1.fut_a[cc] == q0.fut_a[cc]))]
+            elif fl is None or isinstance(fl, _EmptyList) or (isinstance(fl, _PyList) and not fl.items):
+                put = [q1.fut_n == z3.Store(q0.fut_n, q0.counter, IntVal(0)), q1.fut_a == q0.fut_a]
+            else:
+                put = [BoolVal(False)]
         return And(q1.tmax == q0.tmax,
                    If(so.xr_lt(t, q0.tmax),
-                      And(appended(q1._Q_, q0._Q_, ev), q1.counter == q0.counter + 1),
-                      And(same_list(q1._Q_, q0._Q_), q1.counter == q0.counter)))
+                      And(appended(q1._Q_, q0._Q_, ev), q1.counter == q0.counter + 1, *put),
+                      And(same_list(q1._Q_, q0._Q_), q1.counter == q0.counter, *keep)))
 
     def payload(run, name, **kw):
         return (fresh('pl_kind', I), fresh('pl_has', B), fresh('pl_src', so.U()), fresh('pl_tgt', so.U()))
